@@ -52,6 +52,7 @@ func main() {
 	if p.repo == "" {
 		p.repo = "/repo"
 	}
+	snapshotSources(p.repo)
 
 	r.Register("oplist", func(a []string) string { return strings.Join(opNames, ",") })
 	r.Register("table", func(a []string) string {
